@@ -11,7 +11,7 @@ from ..common import Stats, Run, pmap, chunks, fork_histories
 
 # nested struct declared out of field-id order: the layout must still follow the ids
 OOO = ("st", (("a", 1, U(3)), ("b", 0, I(6))))
-ENUM_MAX = (0, 1, 2, 3, 4, 7, 8, 15, 16, 31, 32, 63, 64, 127, 128, 255, 256, 65535)
+ENUM_MAX = (0, 1, 2, 3, 4, 7, 8, 15, 16, 31, 32, 63, 64, 127, 128, 255, 256, 65535, (1 << 49) - 1, 1 << 49, (1 << 53) + 1, (1 << 63) - 1, 1 << 63, (1 << 64) - 1)
 
 
 def alphabet(tier):
@@ -74,7 +74,7 @@ def option_cases(tier):
     # plain (non-array) fields whose names look like unrolled array elements of another field
     for blk in ("f0", "temp", "f0_1"):
         for ok in OPTION_KINDS[:2]:
-            st = ("st", (("f0", 0, U(8)), ("f0_1", 1, I(16)), ("temp", 2, U(8)), ("temp_1", 3, U(8)), ("temp_12", 4, ("st", (("temp_3", 0, U(4)), ("f0_0", 1, U(4)))))))
+            st = ("st", (("f0", 0, U(8)), ("f0_1", 1, I(16)), ("temp", 2, U(8)), ("temp_1", 3, U(8)), ("temp_raw", 5, I(8)), ("temp_12", 4, ("st", (("temp_3", 0, U(4)), ("f0_0", 1, U(4)))))))
             out.append((st, ((blk, ok),)))
     return out
 
